@@ -220,6 +220,58 @@ func TestVerifAlias(t *testing.T){
     rc, out = native.go_test(code, race=True, timeout=900)
     if rc != 0:
         return dict(what="cold-start concurrent test under -race failed: " + out[-600:], op="race")
+    # third scenario: goroutines working on DISJOINT data (own receivers, own arguments) with the operations that use no
+    # lazily built table - hidden shared scratch (pools, memo tables, package-level temporaries) shows as a wrong result or a
+    # detector report; the sequential results of the same calls are the oracle
+    code3 = '''package edwards25519
+import ("testing"; "sync"; "bytes"; "filippo.io/edwards25519/field")
+func work(i int) []byte {
+ var out []byte
+ kb := make([]byte, 32); kb[0] = byte(3 + i); kb[5] = byte(17 * i + 1)
+ k, _ := NewScalar().SetCanonicalBytes(kb)
+ k2 := NewScalar().Multiply(k, k); k2.Add(k2, k)
+ inv := NewScalar().Invert(k2); chk := NewScalar().Multiply(inv, k2)
+ out = append(out, inv.Bytes()...); out = append(out, chk.Bytes()...)
+ p := new(Point).ScalarMult(k, NewGeneratorPoint()); q := new(Point).Add(p, NewGeneratorPoint()); r := new(Point).Subtract(q, p)
+ out = append(out, p.Bytes()...); out = append(out, q.BytesMontgomery()...); out = append(out, r.Bytes()...)
+ out = append(out, byte(p.Equal(q)), byte(q.Equal(new(Point).Add(NewGeneratorPoint(), p))), byte(r.Equal(NewGeneratorPoint())))
+ d, err := new(Point).SetBytes(q.Bytes()); if err != nil { panic(err) }; out = append(out, d.Bytes()...)
+ X, Y, Z, T := q.ExtendedCoordinates(); e, err := new(Point).SetExtendedCoordinates(X, Y, Z, T); if err != nil { panic(err) }; out = append(out, e.Bytes()...)
+ u := new(field.Element).Add(X, Y); v := new(field.Element).Multiply(Z, Z); v.Add(v, new(field.Element).One())
+ rt, sq := new(field.Element).SqrtRatio(u, v); out = append(out, rt.Bytes()...); out = append(out, byte(sq))
+ out = append(out, new(field.Element).Invert(v).Bytes()...); out = append(out, byte(u.Equal(v)), byte(u.IsNegative()))
+ w := make([]byte, 64); copy(w, out); s3, _ := NewScalar().SetUniformBytes(w); out = append(out, s3.Bytes()...)
+ s4, _ := NewScalar().SetBytesWithClamping(kb); out = append(out, s4.Bytes()...)
+ out = append(out, new(Point).MultByCofactor(q).Bytes()...); out = append(out, new(Point).Negate(q).Bytes()...)
+ // tight loops of single operations on changing inputs (check-then-use windows of memo tables, pooled scratch)
+ acc := make([]byte, 32); one := new(field.Element).One(); uj := new(field.Element).Set(u)
+ for j := 0; j < 60; j++ {
+  uj.Add(uj, one); r1, s1 := new(field.Element).SqrtRatio(uj, v); b := r1.Bytes(); for x := range acc { acc[x] ^= b[x] + byte(s1) + byte(j) }
+  // the same inputs again at once (a memo hit, if there is a memo) while the other goroutines replace whatever is shared
+  r2, s2 := new(field.Element).SqrtRatio(uj, v); b = r2.Bytes(); for x := range acc { acc[x] ^= 3*b[x] + 5*byte(s2) }
+  if j%8 == 0 { d1, _ := new(Point).SetBytes(p.Bytes()); d2, _ := new(Point).SetBytes(p.Bytes()); acc[3] ^= d1.Bytes()[7] ^ (2 * d2.Bytes()[9]); i1 := NewScalar().Invert(k2).Bytes(); i2 := NewScalar().Invert(k2).Bytes(); acc[4] ^= i1[2] ^ (2 * i2[6]) }
+  acc[j%32] ^= byte(p.Equal(q)) + 2*byte(q.Equal(q)) + 4*byte(uj.Equal(u))
+ }
+ kj := NewScalar().Set(k)
+ for j := 0; j < 12; j++ { kj.Add(kj, k2); b := NewScalar().Invert(kj).Bytes(); for x := range acc { acc[x] ^= b[x] }; b2 := new(Point).Add(q, p).Bytes(); acc[j] ^= b2[j]; m := q.BytesMontgomery(); acc[j+1] ^= m[3] }
+ out = append(out, acc...)
+ return out
+}
+func TestVerifDisjoint(t *testing.T) {
+ const N = 8
+ want := make([][]byte, N)
+ for i := 0; i < N; i++ { want[i] = work(i) }
+ for round := 0; round < 30; round++ {
+  var wg sync.WaitGroup; start := make(chan struct{}); got := make([][]byte, N)
+  for i := 0; i < N; i++ { wg.Add(1); go func(i int) { defer wg.Done(); <-start; for j := 0; j < 3; j++ { got[i] = work(i) } }(i) }
+  close(start); wg.Wait()
+  for i := 0; i < N; i++ { if !bytes.Equal(got[i], want[i]) { t.Fatalf("goroutine %d working on its own data: results differ from the sequential run (round %d)", i, round) } }
+ }
+}'''
+    for race in (False, True):
+        rc, out = native.go_test(code3, run="TestVerifDisjoint", race=race, timeout=900)
+        if rc != 0:
+            return dict(what="concurrent calls on disjoint data%s: " % (" under -race" if race else "") + out[-600:], op="race")
     # second cold process (fresh tables), without the detector so that the goroutines really overlap; repeated, because the
     # window is the table construction
     for rep in range(4):
